@@ -214,8 +214,9 @@ def run(ctx, report: Report) -> None:
                      f'match_namespace: selector form {form} (map: p -> {U1}{", default -> " + DFLT if has_default else ""}) on '
                      f'an element in namespace {el_ns or "(none)"} gives {got}, the property prescribes {exp}')
 
-    r4 = report.rule('C12-R4', 'implied universal selector: same guard at both sites', floor=2)
-    implied_universal_rule(ctx, r4)
+    r4 = report.rule('C12-R4', 'implied universal selector is added exactly to top-level alternatives (parsed token sequences)', floor=4)
+    from .sem import implied_universal_tables
+    implied_universal_tables(ctx, r4)
 
     # ---- R5 ------------------------------------------------------------------------------------------
     r5 = report.rule('C12-R5', 'the prefix map is an immutable copy', floor=2)
